@@ -193,7 +193,10 @@ type Run struct {
 	ctxs           []*subCtx
 	localDepth     int
 	noSummaries    bool
+	hbDepth        int
+	tickers        []*ChanObj
 	searchOnly     int
+	searchBudget   int
 	auxCounter     int
 	cs             *cryptoState
 	stickyPerm     map[stickyKey]int
@@ -776,7 +779,7 @@ func (e *Engine) exploreHarness(fn *ssa.Function, workers int) *HarnessResult {
 					res.Err = errMsg
 				}
 				tooMany := e.opts.MaxPaths > 0 && res.Stats.Paths >= e.opts.MaxPaths
-				if run.searchOnly > 0 && (len(res.Verdicts) > 0 || res.Stats.Paths >= run.searchOnly) {
+				if (run.searchOnly > 0 && (len(res.Verdicts) > 0 || res.Stats.Paths >= run.searchOnly)) || (run.searchBudget > 0 && res.Stats.Paths >= run.searchBudget) {
 					// a declared bug-hunting harness: stop at the first verdict or at its path budget
 					res.Stats.SearchOnly = true
 					rmu.Unlock()
@@ -869,6 +872,20 @@ func (r *Run) execute() (errMsg string) {
 		}
 		return ""
 	}
+	if r.hb != nil {
+		for _, rc := range r.hb.races {
+			a, b := shortFn(rc.A.fn), shortFn(rc.B.fn)
+			if a > b {
+				a, b = b, a
+			}
+			id := r.hname + "/race@" + a + " vs " + b
+			if r.markViolated(id) {
+				v := r.snapshotVerdict("race", id, "unsynchronised conflicting accesses: "+rc.Descr, rc.A.pos+" / "+rc.B.pos, map[string]*big.Int{})
+				v.Schedule = true
+				r.verdicts = append(r.verdicts, v)
+			}
+		}
+	}
 	if r.checkLeaks {
 		if bl := r.blockedGoroutines(); len(bl) > 0 {
 			id := r.hname + "/leak"
@@ -897,4 +914,11 @@ func (r *Run) stackOf(g *G) string {
 		fns = append(fns, g.stack[i].fn.String())
 	}
 	return strings.Join(fns, " <- ")
+}
+
+func shortFn(fn string) string {
+	if i := strings.LastIndex(fn, "/"); i >= 0 {
+		return fn[i+1:]
+	}
+	return fn
 }
